@@ -21,11 +21,11 @@ def lean_status():
     try:
         st = json.load(open(p))
         import hashlib
-        h = hashlib.sha256(open(os.path.join(ROOT, 'lean', 'BddTheory.lean'), 'rb').read()).hexdigest()[:16]
+        h = hashlib.sha256(b''.join(open(os.path.join(ROOT, 'lean', f), 'rb').read() for f in ('BddTheory.lean', 'BddImage.lean'))).hexdigest()[:16]
         if st.get('compiled') and st.get('source_hash') == h:
-            return (f"Lean lemmas: lean/BddTheory.lean compiled without sorry by {st.get('lean', 'lean')[:40]} "
+            return (f"Lean lemmas: lean/BddTheory.lean + lean/BddImage.lean compiled without sorry by {st.get('lean', 'lean')[:40]} "
                     f"(leanchecker: {st.get('leanchecker')}; axioms: propext, Classical.choice, Quot.sound)")
-        return 'Lean lemmas: NOT compiled on this machine for the current lean/BddTheory.lean -> ASSUMED'
+        return 'Lean lemmas: NOT compiled on this machine for the current lean/*.lean -> ASSUMED'
     except Exception:  # noqa
         return 'Lean lemmas: lean/status.json missing (bin/setup not run?) -> ASSUMED'
 
@@ -68,7 +68,18 @@ def main(argv=None):
     bounded = None
     if cfg.get('bounded') and a.only != 'proof':
         merged = None
-        for modname in cfg['bounded']:
+        mods = list(cfg['bounded'])
+        if cfg.get('proof') and pid != 'C19':
+            # cross-check of the sidecar contracts on real executions, for the proof targets that have an input generator
+            os.environ['VERIF_XCHECK_PID'] = pid
+            try:
+                from vlib.rtc import xcheck
+                if xcheck._selected():
+                    mods.append('vlib.rtc.xcheck')
+            except Exception:  # noqa
+                import traceback
+                crashes.append(dict(fn='xcheck', tb=traceback.format_exc()[-2000:]))
+        for modname in mods:
             r = harness.run_bounded(modname, tier, seed)
             if merged is None:
                 merged = r
